@@ -20,6 +20,7 @@ import (
 	"time"
 
 	mail "github.com/wneessen/go-mail"
+	"github.com/wneessen/go-mail/smtp"
 	"verif/harness/addrx"
 	"verif/harness/hx"
 	"verif/harness/smtpx"
@@ -424,6 +425,103 @@ func runAuth(r *hx.Run, c hx.Case) {
 	}
 }
 
+// runSMTPSeq: direct use of smtp.Client — Hello(name), whatever it returns, followed by other methods (each of
+// them runs the lazy EHLO/HELO when Hello has not completed).  Oracle only: EVERY line the server receives in
+// the session is judged: one CRLF-terminated line per command the client issued, a known verb, EHLO/HELO with
+// exactly one argument which is the accepted name (or the default "localhost" when Hello refused the name),
+// and no line that no call of the sequence intended.
+func runSMTPSeq(r *hx.Run, c hx.Case) {
+	if len(c.Args) < 2 {
+		r.AddOracleOnly(c, false)
+		return
+	}
+	name := string(hx.UnHex(c.Args[0]))
+	calls := c.Args[1]
+	srv := smtpx.NewServer([]string{"8BITMIME", "SMTPUTF8"}, nil)
+	if strings.HasPrefix(calls, "h") { // EHLO rejected: HELO fallback
+		srv = smtpx.NewServer(nil, []smtpx.Decision{smtpx.OK(), smtpx.Reply(502, "5.5.1 EHLO not implemented")})
+		calls = calls[1:]
+	}
+	cc, sc := smtpx.NewPair()
+	go srv.Serve(sc)
+	_ = cc.SetDeadline(time.Now().Add(5 * time.Second))
+	cl, err := smtp.NewClient(cc, "mx.verif.test")
+	if err != nil {
+		_ = cc.Close()
+		srv.Finish(2 * time.Second)
+		r.Fail(c.ID, "harness", "smtp.NewClient: "+err.Error())
+		r.AddOracleOnly(c, false)
+		return
+	}
+	helloErr := cl.Hello(name)
+	intended := map[string]int{}
+	for _, ch := range calls {
+		switch ch {
+		case 'M':
+			_ = cl.Mail("sender@origin.test")
+			intended["MAIL"]++
+		case 'N':
+			_ = cl.Noop()
+			intended["NOOP"]++
+		case 'R':
+			_ = cl.Reset()
+			intended["RSET"]++
+		case 'E':
+			_, _ = cl.Extension("8BITMIME")
+		case 'V':
+			_ = cl.Verify("someone@x.test")
+			intended["VRFY"]++
+		case 'Q':
+			_ = cl.Quit()
+			intended["QUIT"]++
+		}
+	}
+	_ = cl.Close()
+	srv.Finish(2 * time.Second)
+	trace, _ := srv.Snapshot()
+	r.AddOracleOnly(c, helloErr != nil && calls != "")
+	r.Dist["smtpseq:hello-refused="+fmt.Sprint(helloErr != nil)]++
+	wantName := name
+	if helloErr != nil {
+		wantName = "localhost" // smtp.NewClient's default local name
+	}
+	tap := cc.Written()
+	if n := strings.Count(string(tap), "\r\n"); n != len(trace)-1 || (len(tap) > 0 && !strings.HasSuffix(string(tap), "\r\n")) {
+		r.Fail(c.ID, "command-lines-not-one-per-command", fmt.Sprintf("the client wrote %d CRLF-terminated lines, the server read %d commands: %q", n, len(trace)-1, tap))
+	}
+	seen := map[string]int{}
+	for _, e := range trace {
+		if e.Verb == "GREETING" {
+			continue
+		}
+		if strings.ContainsAny(e.Line, "\r\n") || !e.Legal && (strings.Contains(e.Why, "CR/LF") || strings.Contains(e.Why, "CRLF")) {
+			r.Fail(c.ID, "command-line-with-cr-lf", fmt.Sprintf("%q (%s)", e.Line, e.Why))
+		}
+		f := strings.SplitN(e.Line, " ", 2)
+		verb := strings.ToUpper(f[0])
+		if strings.HasPrefix(strings.ToUpper(e.Line), "MAIL FROM:") {
+			verb = "MAIL"
+		}
+		switch verb {
+		case "EHLO", "HELO":
+			seen[verb]++
+			if len(f) != 2 || f[1] == "" || strings.ContainsAny(f[1], " \t") {
+				r.Fail(c.ID, "helo-with-blank", fmt.Sprintf("%q does not carry exactly one argument (Hello(%q) returned %v)", e.Line, name, helloErr))
+			} else if f[1] != wantName {
+				r.Fail(c.ID, "refused-helo-name-sent", fmt.Sprintf("%q: Hello(%q) returned %v, the name in force is %q", e.Line, name, helloErr, wantName))
+			}
+			if seen[verb] > 1 {
+				r.Fail(c.ID, "unintended-command-line", fmt.Sprintf("second %s in one session: %q", verb, e.Line))
+			}
+		default:
+			seen[verb]++
+			if seen[verb] > intended[verb] {
+				r.Fail(c.ID, "unintended-command-line", fmt.Sprintf("the server received %q, which no call of Hello(%q) -> %v; %s issued", e.Line, name, helloErr, calls))
+			}
+		}
+	}
+}
+
 func runCase(r *hx.Run, c hx.Case) {
 	defer func() {
 		if p := recover(); p != nil {
@@ -438,6 +536,8 @@ func runCase(r *hx.Run, c hx.Case) {
 		runHelo(r, c)
 	case "auth":
 		runAuth(r, c)
+	case "smtpseq":
+		runSMTPSeq(r, c)
 	default:
 		r.Add(c, "BAD-CASE", false)
 	}
@@ -539,6 +639,12 @@ func Run(r *hx.Run, replay []hx.Case) {
 	for _, n := range heloNames {
 		runCase(r, heloCase(r, n, false))
 		runCase(r, heloCase(r, n, true))
+	}
+	// direct smtp.Client sessions: Hello(name) -> error or nil, then the client goes on
+	for _, n := range append([]string{"x\r\nMAIL FROM:<evil@x>", "x extra", "x\nNOOP", "ok.name.test"}, heloNames...) {
+		for _, calls := range []string{"Q", "MQ", "N", "RQ", "E", "EQ", "VQ", "NMRQ", "hQ", "hMQ", "-"} {
+			runCase(r, hx.Case{ID: r.NewID(), Kind: "smtpseq", Args: []string{hx.Hex([]byte(n)), calls}})
+		}
 	}
 	for _, mech := range []string{"PLAIN", "LOGIN", "CRAM-MD5"} {
 		for _, u := range users {
